@@ -211,4 +211,290 @@ theorem walk_nil (succ : α → List α) (U : List α) (hU : ∀ x ∈ U, ∀ y 
 
 end Walk
 
+/-! ### The sort -/
+
+section Sorting
+variable {α : Type}
+
+/-- The comparator is a strict total order. -/
+structure StrictTotal (lt : α → α → Bool) : Prop where
+  irrefl : ∀ a, lt a a = false
+  trans : ∀ a b c, lt a b = true → lt b c = true → lt a c = true
+  total : ∀ a b, a ≠ b → lt a b = true ∨ lt b a = true
+
+theorem insertSorted_perm (lt : α → α → Bool) (x : α) (l : List α) :
+    (insertSorted lt x l).Perm (x :: l) := by
+  induction l with
+  | nil => exact List.Perm.refl _
+  | cons y ys ih =>
+    unfold insertSorted
+    split
+    · exact List.Perm.refl _
+    · exact (List.Perm.cons y ih).trans (List.Perm.swap x y ys)
+
+theorem insertSorted_sorted {lt : α → α → Bool} (h : StrictTotal lt) (x : α) (l : List α)
+    (hs : l.Pairwise (fun a b => lt a b = true)) (hx : x ∉ l) :
+    (insertSorted lt x l).Pairwise (fun a b => lt a b = true) := by
+  induction l with
+  | nil => simp [insertSorted]
+  | cons y ys ih =>
+    unfold insertSorted
+    have hy : ∀ z ∈ ys, lt y z = true := (List.pairwise_cons.mp hs).1
+    have hys := (List.pairwise_cons.mp hs).2
+    by_cases hxy : lt x y = true
+    · simp only [hxy, if_true]
+      refine List.pairwise_cons.mpr ⟨?_, hs⟩
+      intro z hz
+      rcases List.mem_cons.mp hz with rfl | hz
+      · exact hxy
+      · exact h.trans _ _ _ hxy (hy z hz)
+    · simp only [hxy]
+      have hne : x ≠ y := fun e => hx (e ▸ List.mem_cons_self ..)
+      have hyx : lt y x = true := by
+        rcases h.total x y hne with h1 | h1
+        · exact absurd h1 hxy
+        · exact h1
+      refine List.pairwise_cons.mpr ⟨?_, ih hys (fun hm => hx (List.mem_cons_of_mem _ hm))⟩
+      intro z hz
+      rcases List.mem_cons.mp ((insertSorted_perm lt x ys).mem_iff.mp hz) with rfl | hz
+      · exact hyx
+      · exact hy z hz
+
+theorem foldl_insert_perm (lt : α → α → Bool) : ∀ (l acc : List α),
+    (l.foldl (fun acc x => insertSorted lt x acc) acc).Perm (acc ++ l) := by
+  intro l
+  induction l with
+  | nil => intro acc; simp
+  | cons x l ih =>
+    intro acc
+    simp only [List.foldl_cons]
+    refine (ih _).trans ?_
+    refine ((insertSorted_perm lt x acc).append_right l).trans ?_
+    simpa using (List.perm_middle (a := x) (l₁ := acc) (l₂ := l)).symm
+
+theorem foldl_insert_sorted {lt : α → α → Bool} (h : StrictTotal lt) : ∀ (l acc : List α),
+    acc.Pairwise (fun a b => lt a b = true) → (acc ++ l).Nodup →
+    (l.foldl (fun acc x => insertSorted lt x acc) acc).Pairwise (fun a b => lt a b = true) := by
+  intro l
+  induction l with
+  | nil => intro acc hs _; simpa using hs
+  | cons x l ih =>
+    intro acc hs hnd
+    simp only [List.foldl_cons]
+    have hp : (insertSorted lt x acc ++ l).Perm (acc ++ x :: l) :=
+      ((insertSorted_perm lt x acc).append_right l).trans
+        (by simpa using (List.perm_middle (a := x) (l₁ := acc) (l₂ := l)).symm)
+    have hx : x ∉ acc := by
+      intro hm
+      have := List.nodup_append.mp hnd
+      exact this.2.2 x hm x (List.mem_cons_self ..) rfl
+    exact ih _ (insertSorted_sorted h x acc hs hx) (hp.nodup_iff.mpr hnd)
+
+theorem sortStable_perm (lt : α → α → Bool) (l : List α) : (sortStable lt l).Perm l := by
+  simpa [sortStable] using foldl_insert_perm lt l []
+
+theorem sortStable_sorted {lt : α → α → Bool} (h : StrictTotal lt) (l : List α) (hnd : l.Nodup) :
+    (sortStable lt l).Pairwise (fun a b => lt a b = true) :=
+  foldl_insert_sorted h l [] List.Pairwise.nil (by simpa using hnd)
+
+/-- Two strictly ascending lists with the same members are equal. -/
+theorem sorted_unique {lt : α → α → Bool} (h : StrictTotal lt) {l1 l2 : List α}
+    (h1 : l1.Pairwise (fun a b => lt a b = true)) (h2 : l2.Pairwise (fun a b => lt a b = true))
+    (hm : ∀ a, a ∈ l1 ↔ a ∈ l2) : l1 = l2 := by
+  have nd : ∀ l : List α, l.Pairwise (fun a b => lt a b = true) → l.Nodup := by
+    intro l hl
+    refine List.Pairwise.imp ?_ hl
+    intro a b hab e
+    subst e
+    rw [h.irrefl] at hab
+    cases hab
+  have hp : l1.Perm l2 := (List.perm_ext_iff_of_nodup (nd l1 h1) (nd l2 h2)).mpr hm
+  refine List.Perm.eq_of_pairwise ?_ h1 h2 hp
+  intro a b _ _ hab hba
+  have := h.trans _ _ _ hab hba
+  rw [h.irrefl] at this
+  cases this
+
+end Sorting
+
+/-! ### The closure loop -/
+
+section Close
+variable {α : Type}
+
+/-- `j` lies strictly below `i`: a non-empty chain of edges `E x y` ("`y` names `x` as a base",
+i.e. `y` is a direct child of `x`) leads from `i` down to `j`. -/
+inductive Below (E : α → α → Prop) : α → α → Prop where
+  | direct {i j : α} : E i j → Below E i j
+  | step {i k j : α} : E i k → Below E k j → Below E i j
+
+theorem Below.trans {E : α → α → Prop} {a b c : α} (h1 : Below E a b) (h2 : Below E b c) : Below E a c := by
+  induction h1 with
+  | direct h => exact Below.step h h2
+  | step h _ ih => exact Below.step h (ih h2)
+
+/-- What holds of the `Values` lists between the two dictionary loops and all through the second:
+each holds at least the direct children and at most the strict descendants. -/
+structure Inv (E : α → α → Prop) (vals : α → List α) : Prop where
+  lower : ∀ x j, E x j → j ∈ vals x
+  upper : ∀ x j, j ∈ vals x → Below E x j
+
+theorem below_of_reach {E : α → α → Prop} {vals : α → List α} (hinv : Inv E vals) {a b c : α}
+    (h1 : Below E a b) (h2 : Reach vals b c) : Below E a c := by
+  induction h2 with
+  | refl => exact h1
+  | step hs _ ih => exact ih (h1.trans (hinv.upper _ _ hs))
+
+theorem reach_iff_below {E : α → α → Prop} {vals : α → List α} (hinv : Inv E vals) (i j : α) :
+    (∃ c ∈ vals i, Reach vals c j) ↔ Below E i j := by
+  constructor
+  · rintro ⟨c, hc, hr⟩
+    exact below_of_reach hinv (hinv.upper _ _ hc) hr
+  · intro h
+    induction h with
+    | direct h => exact ⟨_, hinv.lower _ _ h, Reach.refl _⟩
+    | step h _ ih =>
+      obtain ⟨c, hc, hr⟩ := ih
+      exact ⟨_, hinv.lower _ _ h, Reach.step hc hr⟩
+
+theorem below_mem {E : α → α → Prop} {U : List α} (hU : ∀ x y, E x y → y ∈ U) {a b : α}
+    (h : Below E a b) : b ∈ U := by
+  induction h with
+  | direct h => exact hU _ _ h
+  | step _ _ ih => exact ih
+
+/-- The list of `i` is final: exactly the strict descendants, strictly ascending. -/
+def Closed (E : α → α → Prop) (lt : α → α → Bool) (vals : α → List α) (i : α) : Prop :=
+  (∀ j, j ∈ vals i ↔ Below E i j) ∧ (vals i).Pairwise (fun a b => lt a b = true)
+
+theorem closed_unique {E : α → α → Prop} {lt : α → α → Bool} (hlt : StrictTotal lt)
+    {v1 v2 : α → List α} {i : α} (h1 : Closed E lt v1 i) (h2 : Closed E lt v2 i) : v1 i = v2 i :=
+  sorted_unique hlt h1.2 h2.2 (fun a => (h1.1 a).trans (h2.1 a).symm)
+
+theorem closeOne_spec [DecidableEq α] {E : α → α → Prop} {lt : α → α → Bool} (hlt : StrictTotal lt) (U : List α)
+    (hU : ∀ x y, E x y → y ∈ U) (fuel : Nat) (hf : U.length < fuel) (vals : α → List α)
+    (hinv : Inv E vals) (i : α) :
+    ∃ v cyc, closeOne lt fuel vals i = some (v, cyc) ∧ Inv E v ∧ Closed E lt v i ∧
+      (∀ x, x ≠ i → v x = vals x) ∧ (cyc = true ↔ Below E i i) := by
+  have hvU : ∀ x, ∀ y ∈ vals x, y ∈ U := fun x y hy => below_mem hU (hinv.upper x y hy)
+  obtain ⟨nv, hnv, hnd, hm⟩ := walkAll_nil vals U (fun x _ y hy => hvU x y hy) fuel (vals i) (hvU i) hf
+  have hm' : ∀ j, j ∈ nv ↔ Below E i j := fun j => (hm j).trans (reach_iff_below hinv i j)
+  have hs : ∀ j, j ∈ sortStable lt nv ↔ Below E i j :=
+    fun j => ((sortStable_perm lt nv).mem_iff).trans (hm' j)
+  refine ⟨setVals vals i (sortStable lt nv), decide (i ∈ nv), by simp [closeOne, hnv], ?_, ?_, ?_, ?_⟩
+  · constructor
+    · intro x j hE
+      by_cases hx : x = i
+      · subst hx; simp only [setVals, if_true]; exact (hs j).mpr (Below.direct hE)
+      · simp only [setVals, hx, if_false]; exact hinv.lower x j hE
+    · intro x j hj
+      by_cases hx : x = i
+      · subst hx; simp only [setVals, if_true] at hj; exact (hs j).mp hj
+      · simp only [setVals, hx, if_false] at hj; exact hinv.upper x j hj
+  · constructor
+    · intro j; simp only [setVals, if_true]; exact hs j
+    · simp only [setVals, if_true]; exact sortStable_sorted hlt nv hnd
+  · intro x hx; simp [setVals, hx]
+  · simp only [decide_eq_true_eq]; exact hm' i
+
+/-- The closure loop, for any order of visiting: every visited entry ends with its final list, the
+others are untouched, and a cycle is reported exactly for the visited entries that lie below
+themselves. -/
+theorem closeAll_spec [DecidableEq α] {E : α → α → Prop} {lt : α → α → Bool} (hlt : StrictTotal lt) (U : List α)
+    (hU : ∀ x y, E x y → y ∈ U) (fuel : Nat) (hf : U.length < fuel) :
+    ∀ (order : List α) (vals : α → List α), Inv E vals →
+      ∃ v cyc, closeAll lt fuel order vals = some (v, cyc) ∧ Inv E v ∧
+        (∀ i ∈ order, Closed E lt v i) ∧ (∀ x, x ∉ order → v x = vals x) ∧
+        (∀ x, Closed E lt vals x → Closed E lt v x) ∧
+        (∀ i, i ∈ cyc ↔ i ∈ order ∧ Below E i i) := by
+  intro order
+  induction order with
+  | nil =>
+    intro vals hinv
+    exact ⟨vals, [], rfl, hinv, by simp, fun _ _ => rfl, fun _ h => h, by simp⟩
+  | cons i rest ih =>
+    intro vals hinv
+    obtain ⟨v1, c1, h1, hinv1, hcl1, hsame1, hcyc1⟩ := closeOne_spec hlt U hU fuel hf vals hinv i
+    obtain ⟨v2, c2, h2, hinv2, hcl2, hsame2, hkeep2, hcyc2⟩ := ih v1 hinv1
+    refine ⟨v2, if c1 then i :: c2 else c2, by simp [closeAll, h1, h2], hinv2, ?_, ?_, ?_, ?_⟩
+    · intro x hx
+      rcases List.mem_cons.mp hx with rfl | hx
+      · exact hkeep2 _ hcl1
+      · exact hcl2 x hx
+    · intro x hx
+      have hxi : x ≠ i := fun e => hx (e ▸ List.mem_cons_self ..)
+      have hxr : x ∉ rest := fun hm => hx (List.mem_cons_of_mem _ hm)
+      rw [hsame2 x hxr, hsame1 x hxi]
+    · intro x hx
+      apply hkeep2
+      by_cases hxi : x = i
+      · subst hxi; exact hcl1
+      · unfold Closed at hx ⊢; rw [hsame1 x hxi]; exact hx
+    · intro x
+      by_cases hc : c1 = true
+      · simp only [hc, if_true, List.mem_cons]
+        constructor
+        · rintro (rfl | h)
+          · exact ⟨Or.inl rfl, hcyc1.mp hc⟩
+          · exact ⟨Or.inr ((hcyc2 x).mp h).1, ((hcyc2 x).mp h).2⟩
+        · rintro ⟨rfl | h, hb⟩
+          · exact Or.inl rfl
+          · exact Or.inr ((hcyc2 x).mpr ⟨h, hb⟩)
+      · simp only [hc, List.mem_cons]
+        constructor
+        · intro h
+          exact ⟨Or.inr ((hcyc2 x).mp h).1, ((hcyc2 x).mp h).2⟩
+        · rintro ⟨rfl | h, hb⟩
+          · exact absurd (hcyc1.mpr hb) hc
+          · exact (hcyc2 x).mpr ⟨h, hb⟩
+
+end Close
+
+/-! ### The breadth-first closure of the specification -/
+
+section Closure
+variable {α : Type} [DecidableEq α]
+
+/-- When `closure` answers, the answer is exactly what is reachable from the start set. -/
+theorem closure_spec (succ : α → List α) : ∀ (rounds : Nat) (s out : List α),
+    closure succ rounds s = some out → ∀ y, y ∈ out ↔ ∃ c ∈ s, Reach succ c y := by
+  intro rounds
+  induction rounds with
+  | zero => intro s out h; simp [closure] at h
+  | succ n ih =>
+    intro s out h y
+    unfold closure at h
+    simp only at h
+    split at h
+    · rename_i hempty
+      simp only [Option.some.injEq] at h
+      subst h
+      have hclosed : ∀ x ∈ s, ∀ z ∈ succ x, z ∈ s := by
+        intro x hx z hz
+        apply Classical.byContradiction
+        intro hns
+        have hz' : z ∈ ((s.flatMap succ).filter (fun a => decide (a ∉ s))).eraseDups := by
+          rw [List.mem_eraseDups]
+          simp only [List.mem_filter, List.mem_flatMap, decide_eq_true_eq]
+          exact ⟨⟨x, hx, hz⟩, hns⟩
+        rw [List.isEmpty_iff] at hempty
+        rw [hempty] at hz'
+        cases hz'
+      constructor
+      · intro hy; exact ⟨y, hy, Reach.refl y⟩
+      · rintro ⟨c, hc, hr⟩; exact Reach.mem_of_closed hclosed hr hc
+    · rw [ih _ _ h y]
+      constructor
+      · rintro ⟨c, hc, hr⟩
+        rcases List.mem_append.mp hc with hc | hc
+        · exact ⟨c, hc, hr⟩
+        · rw [List.mem_eraseDups] at hc
+          simp only [List.mem_filter, List.mem_flatMap, decide_eq_true_eq] at hc
+          obtain ⟨⟨x, hx, hcx⟩, _⟩ := hc
+          exact ⟨x, hx, Reach.step hcx hr⟩
+      · rintro ⟨c, hc, hr⟩
+        exact ⟨c, List.mem_append_left _ hc, hr⟩
+
+end Closure
+
 end Goyang.Lemmas.Identity
